@@ -15,7 +15,8 @@ var __n = 0;
 function okf(a, b) { __n++; return [a, b, __n]; }
 function thrower(k) { if (k > 0) return thrower(k - 1); throw new RangeError('deep'); }
 function argthrower() { return okf(1, thrower(0)); }
-function nested(a) { return okf(okf(1, 2), [3, okf(4, thrower(a))]); }
+function pure(a, b) { return [a, b]; }
+function nested(a) { return pure(pure(1, 2), [3, pure(4, thrower(a))]); }
 function looper() { var i = 0; while (true) { i++; } }
 function recurser() { return recurser() + 1; }
 function Ctor(a) { this.a = a; __n++; }
@@ -24,12 +25,12 @@ class Klass { constructor(a) { this.v = a; } static make() { return new Klass(1)
 var bound = okf.bind(null, 'b');
 var proxyf = new Proxy(okf, {});
 var badproxy = new Proxy(okf, { apply() { throw new EvalError('trap'); } });
-function* gen() { try { var x = yield 1; yield x; yield thrower(0); } finally { __n++; } }
+function* gen() { try { var x = yield 1; yield x; yield thrower(0); } finally { pure(1, 2); } }
 var __gen = gen();
 function reviver(k, v) { if (k === 'boom') throw new SyntaxError('reviver'); return v; }
 var getterobj = { get g() { return thrower(2); } };
 function catcher() { for (var i = 0; i < 5; i++) { try { okf(i, thrower(1)); } catch (e) {} } return 'caught5'; }
-function finallyer() { try { return thrower(0); } finally { __n++; } }
+function finallyer() { try { return thrower(0); } finally { pure(3, 4); } }
 """
 
 # (name, step, expected kind) — failing entries have no script-visible side effect before they fail
@@ -148,7 +149,8 @@ def run(tier, seed):
         nscripts_b = 0
         for (k, first, n) in idx:
             cs = [ra["steps"][first + j]["c"] for j in range(n)]
-            if any(failed(c) for c in cs):
+            # entries that fail *with* a script-visible effect (a generator that throws is finished) are replayed in the twin too
+            if any(failed(c) for c in cs) and seq[k][1] != "any":
                 continue
             st = [dict(x) for x in seq[k][2]]
             for x in st:
@@ -214,7 +216,10 @@ def run(tier, seed):
                 a, b = ra["steps"][firstA + j], rb["steps"][firstB + j]
                 ta = ra["trace"][a["t"][0]:a["t"][1]]
                 tb = rb["trace"][b["t"][0]:b["t"][1]]
-                if a["c"] != b["c"] or ta != tb:
+                ca, cb = a["c"], b["c"]
+                if ca.startswith("value:script#") and cb.startswith("value:script#"):
+                    ca = cb = "value:script"
+                if ca != cb or ta != tb:
                     diff = (k, seq[k][0], a["c"], b["c"], ta[:3], tb[:3])
                     break
             if diff:
